@@ -73,4 +73,38 @@ CLAIMED["C20"] = {
     "note": TYPES_NOTE + " Computed option keys are outside the claim.",
     "technique": "Coq proofs (case analysis; list induction) + call-shape x provenance oracle on real outputs",
 }
-NOT_CLAIMED = {p: UNDER for p in ["C01", "C03", "C04", "C05", "C06", "C10", "C11"]}
+SITE_NOTE = ("Trusted: Coq kernel; Spec/Site.v + Spec/SiteCheck.v as this check's reading of what an element denotes (written from the property "
+             "text, independent of the transform); the hand model of lib.rs/directive.rs is tied to the code differentially on the probe stream "
+             "(`const __site = <element>` with attributes x directives x children x hosts x options, every fourth probe directive-heavy) and on whole modules. "
+             "Vue's own runtime (createVNode, mergeProps, withDirectives, the vModel* directives) is not modelled: the claims are about the call the transform emits.")
+CLAIMED["C02"]["text"] += (" C02_children_in_order / C02_children_argument: for every child list of an element host the children argument is the array of the written "
+                           "children in order (cleaned text, expressions, spliced spreads, nested vnodes), null when none remain - relative to the lowering of nested "
+                           "elements; on every probe the REAL output's children are checked against the source element by check_site.")
+CLAIMED["C02"]["note"] = ("Trusted: Coq kernel; jsx_clean / check_children_with are this check's reading of the rules; model tied differentially (hook + public API + probes). "
+                          "Known finding sole_fn_or_object_child_of_element (C02_sole_special_refuted gives the witness).")
+CLAIMED["C01"] = {
+    "text": "Theorems C01_type_partial (the vnode type for every tag form equals the independent reading spec_type), C01_plain_attribute_partial, C01_spread_plain_partial / C01_spread_merge_partial, C01_transform_on_partial (attribute by attribute, what the transform adds to the props object / mergeProps arguments is exactly the contribution attr_spec describes, and nothing else of the element changes), plus the whole-list statement without mergeProps (C11_source_order_partial). The FULL statement - no `C01:` entry in check_site(source element, output) - is evaluated on the REAL output of every probe.",
+    "note": SITE_NOTE + " Partial: the composition over a whole attribute list with mergeProps on (dedupe_props grouping) is decided by the oracle only.",
+    "technique": "Coq refinement proofs (per attribute, model vs. independent spec) + site oracle on real outputs + whole-output correspondence",
+}
+CLAIMED["C03"] = {
+    "text": "Theorem C03_slots: for every child list of a component host, every v-slots form and both settings of enableObjectSlots/optimize, the third argument of the vnode call built by the model is the slots value check_children_with describes (lazy `default` slot in order; function child itself; object literal itself; v-slots beside default; runtime decision `_isSlot(x) ? x : {default}` for a single identifier/call with the call evaluated once into a generated temporary) - relative to the lowering of nested elements and a state without pending assignment target. C03_call_child_once, C03_always_wrapped_when_off. The same check runs on the REAL output of every probe.",
+    "note": SITE_NOTE + " Which branch `_isSlot` selects per runtime value kind is Vue-runtime behaviour; the helper's text is pinned by the translator, not proved.",
+    "technique": "Coq refinement proof (children argument vs. independent spec, case analysis on child shapes) + site oracle on real outputs",
+}
+CLAIMED["C04"] = {
+    "text": "Theorems C04_name_partial (written name read identically: prefix, first letter, `:arg`, `_mod`), C04_binding_partial (for every directive attribute in every spelling and value shape: exactly one binding, equal - definition, value, argument, modifiers - to the one attr_spec describes, and no prop/merge argument/slot is touched), C04_html_text_partial, C04_modifiers_partial. The FULL statement (no `C04:` entry in check_site) is evaluated on the REAL output of every probe; every fourth probe is directive-heavy (namespaced names x array forms x modifiers).",
+    "note": SITE_NOTE + " Partial: composition over the attribute list and the withDirectives wrapper are decided by the oracle only.",
+    "technique": "Coq refinement proofs (per directive attribute) + site oracle on real outputs",
+}
+CLAIMED["C05"] = {
+    "text": "Theorems C05_component_partial, C05_element_partial (props / directive + listener exactly as attr_spec describes, for absent and static arguments), C05_host_directive_partial (select / textarea / input by static type / dynamic type), C05_listener_assigns_target, C05_vmodels_sequence (v-models is replaced in place by the v-model attributes it lists, in order), C05_computed_arg_refuted (the known finding with its witness). The FULL statement (no `C05:` entry in check_site) is evaluated on the REAL output of every probe.",
+    "note": SITE_NOTE + " Known finding vmodel_computed_arg (pinned by a fixture).",
+    "technique": "Coq refinement proofs (per v-model attribute; list induction for v-models) + site oracle on real outputs",
+}
+CLAIMED["C11"] = {
+    "text": "Theorems C11_source_order_partial (without mergeProps the props object of plain attributes and spreads holds their contributions in source order), C11_children_once_in_order, C11_slot_content_lazy (nothing below the `default` arrow is evaluated at vnode creation, whatever the children), C11_props_before_children, C03_call_child_once. The FULL statement is evaluated on the REAL output of every probe by order_fail: every non-trivial source expression occurs exactly once, among the evaluated-at-creation positions for attributes/element children and under a slot function for component children, plus the order tag of check_site.",
+    "note": SITE_NOTE + " The property is about evaluation; it is decided on the syntax of the output, where JavaScript fixes the order. Partial: position of a repeated class/style/listener under mergeProps by oracle only. Known finding vslots_on_element_host_dropped.",
+    "technique": "Coq proofs (list induction; structural) + once/eager/lazy occurrence oracle on real outputs",
+}
+NOT_CLAIMED = {p: UNDER for p in ["C06", "C10"]}
